@@ -48,7 +48,11 @@ out += ["", f"{c} of {n} seeded changes are caught by the quick tier.", "",
         "beside it (C07-9), PIL-backed and parity-flipped images in the study tiler (C08-7), tiles handed out by Pyramid objects /",
         "lazily consumed enumerations while the other system is in use (C05-7, C05-9), use of a pyramid after a refused",
         "sub-pyramid request (C13-8). **C05-8** makes `create_single_tile` return array corners that a box filter then sorts in",
-        "place: the clause that breaks is C07's 'never modifies the tile it inspects', and C07 reports it.", ""]
+        "place: the clause that breaks is C07's 'never modifies the tile it inspects', and C07 reports it. Round 3 for C02, C06,",
+        "C11, C16 added: a pyramid re-opened with its format guessed from the files, in a directory whose name has a dot (C02-8);",
+        "sampling through `Builder.toast_base` with `is_planet` / explicit `coordsys` (C06-8) and samplers with +inf regions",
+        "(C06-9); requests handed over as read-only / integer / shared / re-used arrays (C11-7, C11-8); an explicit LONPOLE and a",
+        "description built on the object's own WCS object flipped first (C16-8, C16-9).", ""]
 p = os.path.join(HERE, "DESIGN.md")
 s = open(p).read()
 i = s.index("## 7. Which checks catch which seeded changes")
